@@ -42,14 +42,20 @@ F16 = scen({"r1/a": "A", "r1/s": None, "r1/s/k": "K"}, {"r1|a": "s/x"})         
 F16d = scen({"r1/d": None, "r1/d/k": "K", "r1/s": None}, {"r1|d": "s/x"}, mode="directory")
 F18 = {'answer_style': 39475, 'answers': [['custom', '../r1/../r1x/y']], 'dry': False, 'explicit': [], 'fault_at': None, 'hidden': False, 'invert': False, 'mode': 'path', 'order': {'r1|b': 8, 'r1|c': 2, 'r1|s': 4, 'r1|s/s': 4, 'r1|s/s/.h': 7, 'r1|s/s/c': 3, 'r2|.h': 8, 'r2|.hd': 3, 'r2|.hd/.hid.txt': 3, 'r2|.hd/d': 9, 'r2|.hid.txt': 9, 'r3|t': 5, 'r3|t/b': 6, 'r3|u': 3}, 'plan': {'r1|c': 'q/../b'}, 'recursive': False, 'roots': ['r1', 'r2', 'r3'], 'sorted': True, 'spec': {'r1': None, 'r1/b': 'C:r1/b', 'r1/c': 'C:r1/c', 'r2': None, 'r3': None}, 'spelling': 'dotted', 'strategy': 'manual'}   # custom path typed at the prompt leaves the input directory (path mode)
 F18b = scen({"r1/a": "A", "r1/b": "B"}, {"r1|a": "b"}, mode="path", strategy="manual", answers=[("custom", "/tmp/zz_escape")])
+# a chain through a name that is a file first and a directory afterwards: c -> a/b is deferred until a has moved away
+CHAINDIR = scen({"r1/a": "A", "r1/c": "C"}, {"r1|c": "a/b", "r1|a": "z"}, mode="path", strategy="stop", order={"r1|c": 0, "r1|a": 1})
+CHAINDIRi = scen({"r1/a": "A", "r1/c": "C"}, {"r1|c": "a/b", "r1|a": "z"}, mode="path", strategy="ignore", order={"r1|c": 0, "r1|a": 1})
+THRU = scen({"r1/a": "A", "r1/c": "C"}, {"r1|c": "a/b"}, mode="path", strategy="ignore")      # destination below an existing FILE
+THRUs = scen({"r1/a": "A", "r1/c": "C"}, {"r1|c": "a/b"}, mode="path", strategy="stop")
+THRUm = scen({"r1/a": "A", "r1/c": "C", "r1/d": "D"}, {"r1|c": "a/b", "r1|d": "x"}, mode="path", strategy="manual", answers=[("ignore",)])
 K2 = scen({"r1/d": None, "r1/d/f": "F", "r1/l": ("link", "d")}, {"r1|d/f": "g", "r1|l/f": "g"}, recursive=True)
 K3 = scen({"r1/a": "A", "r1/l": ("link", "a")}, {"r1|a": "l"}, strategy="override")
 K5 = scen({"r1/a": "A", "r1/d": None, "r1/d/k": "K"}, {"r1|a": "d"}, strategy="override")
 
 CORPUS = {
     ("C01", "runs"): [F1, F1p, F13, F2, F4],
-    ("C02", "runs"): [F2, F2b],
-    ("C03", "runs"): [F3c, F1, F18, F18b],
+    ("C02", "runs"): [F2, F2b, CHAINDIR],
+    ("C03", "runs"): [F3c, F1, F18, F18b, CHAINDIR, CHAINDIRi],
     ("C04", "dry_plans"): [dict(F3, dry=True), dict(F14, dry=True), dict(F16, dry=True)],
     ("C05", "dry_vs_real"): [F1, F3, F3c, F14, F15, F16, F16d, F13, F18, K2, K3, K5],
     ("C06", "runs"): [F4, F16, F13, F18, F18b],
